@@ -276,6 +276,26 @@ def replay_msd(inputs):
         Dref = np.mean(refd[:, -1] ** 2) * 1e-20 / (2 * d * T * 1e-15)
         if not np.isclose(D, Dref, rtol=1e-8, atol=0):
             bad.append(f'tracer_diffusivity(d={d}) = {D} != {Dref}')
+    # the same object asked again, and asked again after it was extended in place: the answers belong to the current frames
+    msd_again = np.asarray(tr.mean_squared_displacement())
+    dist_again = np.asarray(tr.distances_from_base_position())
+    if msd_again.shape != msd.shape or not np.allclose(msd_again, msd, rtol=1e-9, atol=1e-12) or not np.allclose(dist_again, dist, rtol=1e-9, atol=1e-12):
+        bad.append('a second MSD / distance query on the same object gives a different answer')
+    more = rng.normal(scale=scale, size=(3, N, 3)).clip(-0.45, 0.45)
+    unwrapped2 = np.concatenate([unwrapped, unwrapped[-1] + np.cumsum(more, axis=0)])
+    tail = Trajectory(species=[Element('Li')] * N, coords=np.mod(unwrapped2[T:], 1), lattice=lat.matrix, time_step=1e-15, metadata={'temperature': 300})
+    try:
+        tr.extend(tail)
+        dist_ext = np.asarray(tr.distances_from_base_position())
+        ref_ext = np.linalg.norm((unwrapped2 - unwrapped2[0]) @ lat.matrix, axis=-1).T
+        if dist_ext.shape != ref_ext.shape or not np.allclose(dist_ext, ref_ext, rtol=1e-8, atol=1e-10):
+            bad.append('after extend() the distances from the start are not those of the extended trajectory')
+    except Exception as e:
+        tb_ = __import__('traceback').extract_tb(e.__traceback__)
+        if any('/src/gemdat/' in f.filename for f in tb_):
+            bad.append(f'extend / query after extend raised {type(e).__name__}: {e}')
+        else:
+            raise
     return {'reproduced': bool(bad), 'detail': f'seed={inputs["seed"]} T={T} N={N} lattice={np.round(lat.matrix, 3).tolist()}: ' + '; '.join(bad[:3])}
 
 
